@@ -2,7 +2,7 @@
 import ast
 import itertools
 
-from .common import (ctx, family, returns, calls_in_ctx, reach_from_succ, site, srcs_text, truthy_label, resolve_call, test_awaited_call, full_text, inline_ast)
+from .common import (ctx, family, returns, calls_in_ctx, reach_from_succ, site, srcs_text, truthy_label, resolve_call, test_awaited_call, full_text, inline_ast, spliced_args)
 from ..flow import callee_attr
 from ..loader import AnalysisError, norm
 from ..verdict import EnumDomain, BoolDomain, enum_members, accepting_set, pruned_edges, member_of
@@ -418,8 +418,13 @@ def run(R):
                 if role(q) != role(gq):
                     continue
                 bound = None
-                if 'validator' in gparams and gparams.index('validator') < len(c.args):
-                    bound = c.args[gparams.index('validator')]
+                cargs = spliced_args(cx, c)
+                star = next((i for i, a in enumerate(cargs) if isinstance(a, ast.Starred)), None)
+                if 'validator' in gparams and gparams.index('validator') < len(cargs):
+                    vi = gparams.index('validator')
+                    bound = cargs[vi] if star is None or vi < star else cargs[star].value     # an opaque *args: cannot tell, accept
+                elif star is not None:
+                    bound = cargs[star].value
                 for k in c.keywords:
                     if k.arg == 'validator':
                         bound = k.value
@@ -435,7 +440,7 @@ def run(R):
                 okv = bool(srcs) and all((s_.kind == 'param' and s_.expr == 'validator') or
                                          (s_.kind in ('iter', 'unpack') and 'validator' in ast.unparse(n.ast) if hasattr(n, 'ast') else False) or
                                          (s_.kind == 'expr' and 'validator' in s_.text()) for s_ in srcs)
-                if okv or ast.unparse(bound) == 'validator':
+                if okv or ast.unparse(bound) == 'validator' or (star is not None and bound is cargs[star].value):
                     R.ok('C05.PRV.2', inst, site(cx, c))
                 else:
                     R.fail('C05.PRV.2', inst, q, c, f'`{norm(c)[:90]}` passes {srcs_text(srcs)} as the validator instead of the one supplied', site(cx, c))
